@@ -861,11 +861,13 @@ def gen_cases(ctx):
 
     def bump(key, k):
         st[key][k] = st[key].get(k, 0) + 1
-    n_hist = ctx.scale(1, 4)
     for name, info in DETS.items():
         fam = info["fam"]
+        heavy = name in ("PCACD", "KdqTreeBatch", "KdqTreeStreaming")
+        n_hist = ctx.scale(1, 2 if heavy else 3)
         dims = [1] if is_uni(name) or fam == "sy" else \
-            ctx.scale([1, 2] if name in ("HDDDM2", "NNDVI") else [2], [1, 2, 3])
+            ctx.scale([1, 2] if name in ("HDDDM2", "NNDVI") else [2],
+                      [2, 3] if name == "PCACD" else [1, 2] if heavy else [1, 2, 3])
         for d in dims:
             for hno in range(n_hist):
                 seed = rng.randrange(1, 10 ** 6)
@@ -875,8 +877,7 @@ def gen_cases(ctx):
                     pls = [("y-" + str(i), [(rng.choice(YC), rng.choice(YC)) for _ in range(L)], None) for i in range(2)]
                     pls.append(("y-int", [("int", "int")] * L, None))
                 else:
-                    pls = plans(name, d, L, rng, ctx.thorough)
-                heavy = name in ("PCACD", "KdqTreeBatch", "KdqTreeStreaming")
+                    pls = plans(name, d, L, rng, ctx.thorough and not heavy)
                 # ---- container pairs on the same values
                 ref_calls = make_calls(name, hist, pls[0][1], pls[0][2])
                 for tag, plan, names in pls[1:]:
@@ -896,7 +897,9 @@ def gen_cases(ctx):
                     kinds = ["ymulti"] if fam == "sy" else ["rows", "width", "renamed"] + (["multicol"] if is_uni(name) else [])
                     for pos in positions:
                         for kind in kinds:
-                            reps = 2 if ctx.thorough else 1
+                            reps = 2 if (ctx.thorough and not heavy) else 1
+                            if fam == "sy":
+                                reps = ctx.scale(3, 6)
                             for _ in range(reps):
                                 if fam == "sy":
                                     good = yv(rng.randint(0, 1), rng.choice(YC))
